@@ -72,6 +72,9 @@ def canonicalise(tree):
       (c) `if a: (if b: S)`  ->  `if a and b: S`      (neither has an else)
 
     Line numbers of the surviving nodes are kept."""
+    for node in ast.walk(tree):
+        if isinstance(node, (ast.If, ast.For, ast.While)) and node.orelse and all(isinstance(x, ast.Pass) for x in node.orelse):
+            node.orelse = []        # `else: pass` says nothing
     for fn in [n for n in ast.walk(tree) if isinstance(n, (ast.FunctionDef, ast.AsyncFunctionDef))]:
         declared = set()
         for n in _scope_nodes(fn):
